@@ -221,7 +221,7 @@ def unlay_incoming(version, d):
 
 class Bytes(Harness):
     name = "c13_bytes"
-    must_reach = ("unicast", "multicast", "broadcast", "ignored-type", "substituted", "undecodable", "join", "leave", "denied")
+    must_reach = ("unicast", "multicast", "broadcast", "ignored-type", "substituted", "undecodable", "join", "leave", "denied", "repeated-frame")
     functions = ("EZSP.frame_received", "ProtocolHandler.__call__", "ControllerApplication.ezsp_callback_handler", "ControllerApplication._handle_frame",
                  "ControllerApplication._handle_tc_join_handler")
 
@@ -251,8 +251,15 @@ class Bytes(Harness):
                     payload = payload[:pos] + [cands[ctx.choice("val", len(cands))]] + payload[pos + 1:]
                     ctx.label("substituted")
                 fid = ph.COMMANDS["incomingMessageHandler"][0]
-                ez.frame_received(bytes(E.header(version, 0x33, fid, callback=True) + payload))
+                repeat = ctx.flag("same_frame_twice")  # e.g. a device re-sending the identical report
+                for _ in range(2 if repeat else 1):
+                    ez.frame_received(bytes(E.header(version, 0x33, fid, callback=True) + payload))
                 f = unlay_incoming(version, payload)
+                if repeat:
+                    ctx.label("repeated-frame")
+                    if f is not None and f["type"] in (UNICAST, MULTICAST, BROADCAST):
+                        ctx.check(len(rec.packets) == 2, "two identical %s callback frames (v%d) produced %d packets" % (f["type"], version, len(rec.packets)), "repeated-callback-dropped")
+                        rec.packets.pop()
                 if f is None:
                     ctx.label("undecodable")
                     ctx.check(not rec.packets, "frame with an incomplete payload produced a packet", "packet-from-truncated")
@@ -286,7 +293,18 @@ class Bytes(Harness):
                 ieee = [0xE7, 0x69, 0x90, 0x0A, 0x00, 0x6F, 0x0D, 0x00]
                 payload = [nwk & 0xFF, nwk >> 8] + ieee + [status, decision, parent & 0xFF, parent >> 8]
                 fid = ph.COMMANDS["trustCenterJoinHandler"][0]
-                ez.frame_received(bytes(E.header(version, 0x33, fid, callback=True) + payload))
+                repeat = ctx.flag("same_frame_twice")
+                for _ in range(2 if repeat else 1):
+                    ez.frame_received(bytes(E.header(version, 0x33, fid, callback=True) + payload))
+                if repeat:
+                    ctx.label("repeated-frame")
+                    n_ev = len(rec.joins) + len(rec.leaves)
+                    expect_ev = 0 if (status != DEVICE_LEFT and decision == DENY_JOIN) else 2
+                    ctx.check(n_ev == expect_ev, "two identical trust-centre callbacks (v%d, status %d, decision %d) produced %d join/leave events" % (version, status, decision, n_ev), "repeated-callback-dropped")
+                    if rec.joins:
+                        rec.joins.pop()
+                    if rec.leaves and status == DEVICE_LEFT:
+                        rec.leaves.pop()
                 if status == DEVICE_LEFT:
                     ctx.label("leave")
                     ctx.check(len(rec.leaves) == 1 and not rec.joins, "departure (v%d, decision %d): %d leave(s), %d join(s)" % (version, decision, len(rec.leaves), len(rec.joins)), "leave-count")
